@@ -70,6 +70,13 @@ SITES = {
     "comment": ("<!-- p${{{v}}}q -->", "<!-- p", "q -->", "comment"),
     "i18n_name": ('<p i18n:translate="">A <b i18n:name="n">${{{v}}}</b> Z</p>',
                   "<p>A <b>", "</b> Z</p>", "text"),
+    # dynamic text directly inside a translated block (white space of the
+    # block is collapsed: compared modulo white space)
+    "i18n_text": ('<p i18n:translate="">A ${{{v}}} Z</p>', "<p>A", "Z</p>",
+                  "text"),
+    "i18n_attr_in_block": ('<p i18n:translate="">A <b title="${{{v}}}">t</b>'
+                           ' Z</p>', '<p>A <b title="', '">t</b> Z</p>',
+                           "dq"),
     "define": ('<b tal:define="w {v}" tal:content="w">x</b>', "<b>", "</b>",
                "text"),
     "repeat": ('<b tal:repeat="w [{v}]" tal:content="w">x</b>', "<b>", "</b>",
@@ -134,6 +141,10 @@ def cases(draw):
                       # depend on its name)
                       "host": draw(st.sampled_from(HOSTS))})
     return {"sites": sites, "mode": "xml",
+            # what the translation function answers for unknown messages:
+            # the default text, or the message id
+            "translator": draw(st.sampled_from(["default", "default",
+                                                "msgid"])),
             # implicit translation routes plain ${name} interpolations (and
             # the attribute 'x') through the translation machinery
             "implicit": draw(st.sampled_from([False, False, True]))}
@@ -198,12 +209,17 @@ def build(case, harmless=False):
     return "".join(src), env, trans
 
 
-def make_translate(trans):
+def make_translate(trans, mode="default"):
     def translate(msgid, domain=None, mapping=None, context=None,
                   target_language=None, default=None):
         mid = getattr(msgid, "msgid", None)
         if mid is not None and mid in trans:
             return trans[mid]
+        if mode == "msgid" and isinstance(msgid, str):
+            # the gettext convention: an unknown message is answered with
+            # the message id itself (placeholders filled in)
+            from chameleon.i18n import simple_translate
+            return simple_translate(msgid, mapping=mapping, default=msgid)
         # default behaviour for everything else
         from chameleon.i18n import simple_translate
         return simple_translate(msgid, domain=domain, mapping=mapping,
@@ -220,7 +236,8 @@ def render(case, harmless=False):
     if case.get("implicit"):
         cfg = {"implicit_i18n_translate": True,
                "implicit_i18n_attributes": {"x"}}
-    o = run(PageTemplate, src, translate=make_translate(trans), **cfg)
+    o = run(PageTemplate, src, translate=make_translate(
+        trans, case.get("translator", "default")), **cfg)
     if not o.ok:
         return src, o
     return src, run(o.value.render, **env)
@@ -295,8 +312,10 @@ class Escape(Part):
             region = seg[len(pre):len(seg) - len(suf)]
             _val, text = value_of(s, False, i)
             raw_expected = is_raw(s)
+            in_block = kind in ("i18n_text", "i18n_attr_in_block")
+            ws = lambda t: " ".join(t.split())   # noqa: E731
             if raw_expected:
-                if region != text:
+                if (ws(region) != ws(text)) if in_block else region != text:
                     return Mismatch("escape:opt-out not verbatim (%s/%s)" % (
                         kind, s["cls"]), dict(detail, region=region,
                                               expected=text))
@@ -312,7 +331,12 @@ class Escape(Part):
             if q and q in region:
                 return Mismatch("escape:raw quote (%s/%s)" % (
                     kind, s["cls"]), dict(detail, region=region))
-            if html.unescape(region) != text:
+            if in_block:
+                if ws(html.unescape(region)) != ws(text):
+                    return Mismatch("escape:does not round-trip (%s/%s)" % (
+                        kind, s["cls"]), dict(detail, region=region,
+                                              expected=text))
+            elif html.unescape(region) != text:
                 return Mismatch("escape:does not round-trip (%s/%s)" % (
                     kind, s["cls"]), dict(detail, region=region,
                                           unescaped=html.unescape(region),
